@@ -2325,6 +2325,7 @@ def parse_item(line_tokens):
     # shorthand packs
     elif head in SHORTHAND_PACK_NAMES:
         name, *imm = tokens
+        name = name.lower()
         imm = parse_immediate(imm, line)
         return ShorthandPack(line, name, imm)
     # aligns
